@@ -1,7 +1,8 @@
 (* C04 — No silent truncation: a message ends cleanly only if it was received completely.
-   Statements only; proofs in Proofs/ReaderP.v. *)
+   Statements only; proofs in Proofs/ReaderP.v, Proofs/ReaderCutP.v (uncompressed streams), Proofs/ReaderCutZP.v (streams with
+   compressed messages, every inflater). *)
 From Coq Require Import List NArith ZArith Bool.
-From WS Require Import Base.Words Gen.Consts Model.Mask Model.Frame Model.Proto Model.RefDecoder Model.Reader Model.Script Proofs.ReaderP Proofs.ReaderCutP.
+From WS Require Import Base.Words Gen.Consts Model.Mask Model.Frame Model.Proto Model.RefDecoder Model.Reader Model.Script Model.ScriptZ Proofs.ReaderP Proofs.ReaderCutP Proofs.ReaderCutZP.
 Import ListNotations.
 Open Scope N_scope.
 
@@ -57,3 +58,28 @@ Example C04_server_partial_payload_unmasked :
   fst (run cfg (fun _ _ => ([], INeedMore)) 32769 [130; 138; 1; 2; 3; 4; 96; 96; 96] EFail [OReader; OReadAll]) =
     [ObReader (inl 2); ObMsg [97; 98; 99] (Some RETransFail)].
 Proof. vm_compute. reflexivity. Qed.
+
+
+(* ---- the same for streams with COMPRESSED messages, for EVERY inflater ----
+   A valid stream on a connection with permessage-deflate (compressed and uncompressed messages mixed, any fragmentation, control
+   frames anywhere, both roles, both takeover settings) is cut at ANY byte offset and the transport ends.  Every message received
+   completely is delivered exactly as in the uncut stream; then exactly one call fails: the Reader call, or the read of the
+   message during which the transport ended — NEVER with a clean end.  For a compressed message the application gets what the
+   inflater makes of the raw payload received so far (without the 00 00 ff ff tail, with the right dictionary) and then the
+   transport's error (or the inflater's complaint). *)
+Theorem C04_no_silent_truncation_compressed : forall cfg inflate co ms sizes cut e,
+  rc_co cfg = Some co -> Forall (fun zm => wf_smsg (zm_m zm)) ms ->
+  all_inflate_ok inflate (reader_takeover (rc_role cfg) co) [] ms = true ->
+  length sizes = length ms -> Forall (fun n => 0 < n)%nat sizes -> e <> EOpen ->
+  let masked := role_eqb (rc_role cfg) Server in
+  let tk := reader_takeover (rc_role cfg) co in
+  let stream := enc_zscript masked ms in
+  (cut < length stream)%nat ->
+  let r := run cfg inflate (-1)%Z (firstn cut stream) e (read_ops sizes) in
+  exists k zm rest, ms = firstn k ms ++ zm :: rest /\ length (firstn k ms) = k /\
+    (fst r = expected_zobs inflate tk [] (firstn k ms) ++ [ObReader (inr (end_err_of e))]
+     \/ exists d err,
+          fst r = expected_zobs inflate tk [] (firstn k ms) ++ [ObReader (inl (sm_typ (zm_m zm))); ObMsg d (Some err)] /\
+          cut_outcome inflate e (dict_after inflate tk [] (firstn k ms)) zm d err).
+Proof. exact reader_cut_zstream. Qed.
+Print Assumptions C04_no_silent_truncation_compressed.
